@@ -111,7 +111,11 @@ class EqSpec(object):
             return outs
         if cls == 'Process':
             if name == 'is_alive':
-                env(st); return [(st, ('val', B(st.g['w'] != DEAD)))]
+                env(st)
+                # the ghost worker state `w` is the state of the CURRENT worker (self._compare_process); any other Process object is an earlier
+                # worker that was joined / killed / forgotten: not alive
+                cur_ = st.rd(sv, '_compare_process')
+                return [(st, ('val', B(z3.And(recv == cur_, st.g['w'] != DEAD))))]
             if name == 'join':
                 # a signalled idle worker exits (its loop polls the event; the exit itself is OS behaviour: assumed, C13)
                 st.events.append(('join', tuple(e_[0] for e_ in st.events))); st.g['w'] = z3.IntVal(NONE_W); return [(st, ('val', NONE))]
